@@ -32,7 +32,7 @@ type dlServer struct {
 	window int // hash window size
 	// adversary
 	corruptMaster bool // master bytes are corrupted somewhere (verified download must fail)
-	corruptCDN    int  // 0 honest; 1 bit flip; 2 truncate; 3 extend; 4 swap halves
+	corruptCDN    int  // 0 honest; 1 bit flip; 2 truncate; 3 extend; 4 swap halves; 5 bit flip only in answers that do not cover the whole hash window
 	corruptAt     int64
 
 	// CDN
@@ -237,10 +237,14 @@ func (c cdnConn) UploadGetCDNFile(ctx context.Context, req *tg.UploadGetCDNFileR
 	}
 	plain := s.f.bytes(req.Offset, req.Limit)
 	enc := s.ctr(req.Offset, plain)
-	if s.corruptCDN != 0 && len(enc) > 0 && req.Offset <= s.corruptAt && s.corruptAt < req.Offset+int64(len(enc)) {
+	ws := s.corruptAt - s.corruptAt%int64(s.window)
+	coversWindow := req.Offset <= ws && req.Offset+int64(req.Limit) >= ws+int64(s.window)
+	if s.corruptCDN == 5 && coversWindow {
+		// the selective adversary answers whole-window requests honestly
+	} else if s.corruptCDN != 0 && len(enc) > 0 && req.Offset <= s.corruptAt && s.corruptAt < req.Offset+int64(len(enc)) {
 		s.corrupted = true
 		switch s.corruptCDN {
-		case 1:
+		case 1, 5:
 			enc[s.corruptAt-req.Offset] ^= 1
 		case 2:
 			enc = enc[:len(enc)/2/16*16]
@@ -339,7 +343,7 @@ func runDownload(t *testing.T, tape *simrt.Tape, env dst.Env, verified bool) *si
 			if size > 0 && tape.Coin(simrt.Fault, 1, 3) {
 				srv.corruptAt = int64(tape.Choose(simrt.Fault, int(size)))
 				if srv.useCDN {
-					srv.corruptCDN = 1 + tape.Choose(simrt.Fault, 4)
+					srv.corruptCDN = 1 + tape.Choose(simrt.Fault, 5)
 				} else {
 					srv.corruptMaster = true
 				}
